@@ -1,3 +1,4 @@
+import inspect
 import json
 from pathlib import Path
 from typing import Union
@@ -59,7 +60,7 @@ class BaseModelPlus(ParserMixin, BaseModel, metaclass=DynEncoderModelMetaclass):
         """Refuse input keys that cannot be kept without breaking the model.
 
         This can happen because fields can also be given by their name (not only
-        by their alias).
+        by their alias) and extra fields are kept as attributes of the object.
         """
         if not isinstance(values, dict):
             return values
@@ -68,6 +69,21 @@ class BaseModelPlus(ParserMixin, BaseModel, metaclass=DynEncoderModelMetaclass):
                 # (pydantic would validate one and silently keep the other one)
                 msg = f"field given twice, as '{fld.alias}' and as '{fname}'"
                 raise ValueError(msg)
+        if cls.__config__.extra is Extra.allow:
+            known = set(cls.__fields__.keys())
+            known.update(fld.alias for fld in cls.__fields__.values())
+            for key in values.keys():
+                if key in known or not isinstance(key, str):
+                    continue
+                attr = inspect.getattr_static(cls, key, None)
+                if (
+                    inspect.isroutine(attr)
+                    or isinstance(attr, property)
+                    or key in ("Plugin", "Config")
+                ):
+                    # would shadow e.g. the method used for serialization
+                    msg = f"extra field '{key}' has the name of a model attribute"
+                    raise ValueError(msg)
         return values
 
     def dict(self, *args, **kwargs):
